@@ -1,5 +1,7 @@
 import PharmpyProofs.C20.Lemmas
 import PharmpyProofs.C20.Layout
+import PharmpyProofs.C20.Split
+import PharmpyProofs.C20.Sym
 import PharmpyModel.C20.Spec
 /-
   C20 — Estimation results are read faithfully from NONMEM output.  Property theorems only.
@@ -89,6 +91,121 @@ theorem parse_render_table (t : RefTable) (h : t.fits = true) :
   · intro r hr c hc d hd
     have hok : cellOk c = true := (hrows r hr).1 c hc
     exact parse_render_cell c d hok hd
+
+
+/-! ## cells that do not fit: touching fields -/
+
+/-- Two `1PE13.5` cells, the second one `-1.00000E-100` (13 characters, as pharmpy's own writer
+    `'%13.5E'` prints it). -/
+def touchingTable : RefTable :=
+  ⟨13, [['A'], ['B']], [⟨13, .right⟩, ⟨13, .right⟩],
+    [[.sci false 5 100000 0, .sci true 5 100000 (-100)]]⟩
+
+/-- The full statement "parse ∘ render = id for every table" is false: a 13-character cell leaves
+    no separating blank, the two fields are read as one token, which is not a number, and the
+    second column is read as missing.  (So `fits` in `parse_render_table` cannot be dropped.) -/
+theorem touching_fields_witness :
+    touchingTable.fits = false
+      ∧ (renderBody touchingTable).map String.ofList = [" A            B", "  1.00000E+00-1.00000E-100"]
+      ∧ (readFrame (renderBody touchingTable)).toOption
+          = some ⟨[['A'], ['B']], [[some "1.00000E+00-1.00000E-100".toList, none]]⟩
+      ∧ parseNum "1.00000E+00-1.00000E-100".toList = none := by
+  decide +kernel
+
+/-- Non-vacuity of `parse_render_table`: a two-row ext-like table with a negative estimate, a
+    special ITERATION code and a 22-wide OBJ column fits. -/
+example : (⟨13, [['I'], ['T', '1'], ['O', 'B', 'J']], [⟨13, .right⟩, ⟨13, .right⟩, ⟨22, .right⟩],
+    [[.int 0, .sci true 5 469307 (-3), .fix false 587 14 36644134661617],
+     [.int (-1000000000), .sci false 5 100000 (-99), .fix true 0 17 5]]⟩ : RefTable).fits = true := by
+  decide +kernel
+
+/-! ## several tables in one file -/
+
+/-- n tables in ⇒ n chunks out, each starting with its own title line and holding exactly its own
+    lines, in order — for any number of tables and lines (body lines are the lines that do not
+    start with `TABLE NO.`). -/
+theorem multi_table_split (cs : List (Str × List Str)) (hne : cs ≠ [])
+    (ht : ∀ c ∈ cs, isTitle c.1 = true) (hb : ∀ c ∈ cs, ∀ l ∈ c.2, isTitle l = false) :
+    splitTables (cs.map (fun c => c.1 :: c.2)).flatten = cs.map (fun c => c.1 :: c.2) := by
+  cases cs with
+  | nil => exact absurd rfl hne
+  | cons c cs =>
+    have h1 : startsWith tableNoPrefix c.1 = true := ht c (by simp)
+    unfold splitTables
+    simp only [List.map_cons, List.flatten_cons, List.cons_append, List.foldl_cons, List.foldl_append,
+      splitStep, h1, if_true, List.isEmpty_nil]
+    rw [foldl_body c.2 _ _ (hb c (by simp))]
+    have := foldl_chunks cs (fun x hx => ht x (by simp [hx])) (fun x hx => hb x (by simp [hx]))
+      [] ([c.1] ++ c.2) (by simp)
+    rw [this]
+    simp
+
+/-- A title line produced by the reference writer starts a new table. -/
+theorem rendered_title_is_title (w n : Nat) (rest : Str) : isTitle (renderTitleNo w n ++ rest) = true := by
+  simp [isTitle, startsWith, renderTitleNo, List.append_assoc]
+
+/-- The table number is read back exactly (field width `w`, any number that fits, any continuation
+    that does not start with a digit). -/
+theorem table_number_read_back (w n : Nat) (rest : Str) (hfit : (natDigits n).length < w)
+    (hrest : StopsDigits rest) :
+    parseTitleLine (renderTitleNo w n ++ rest)
+      = .ok ⟨n, containsSub "Evaluation".toList (renderTitleNo w n ++ rest), matchTitleRest rest⟩ := by
+  simp [parseTitleLine, matchTableNo_render w n rest hfit hrest]
+
+/-! ## ETC / PHC matrices -/
+
+/-- `triangular_root` inverts the triangular numbers (so every ETC vector of a legal length is
+    accepted and gets the right dimension). -/
+theorem triangular_root_exact (n : Nat) : triangularRoot (tri n) = n := triangularRoot_tri n
+
+/-- `flattened_to_symmetric`: for every dimension `n` and every vector of `n(n+1)/2` entries the
+    result is the n×n matrix with entry (i,j) = x[T(max i j) + min i j] — i.e. ETC(a,b) of the phi
+    file lands at [a,b] and [b,a]. -/
+theorem etc_symmetric_index {α : Type} (zero : α) (n : Nat) (x : List α) (hx : x.length = tri n) :
+    ∃ M, flattenedToSymmetric zero x = .ok M ∧ M.length = n ∧
+      ∀ i j, i < n → j < n → (M[i]?).bind (·[j]?) = x[tri (max i j) + min i j]? := by
+  refine ⟨(List.range n).map (fun i => (List.range n).map (fun j =>
+      if j ≤ i then (((lowerRows 0 n x)[i]?).bind (·[j]?)).getD zero
+      else (((lowerRows 0 n x)[j]?).bind (·[i]?)).getD zero)), ?_, ?_, ?_⟩
+  · unfold flattenedToSymmetric
+    simp only [hx, triangularRoot_tri, bne_self_eq_false, Bool.false_eq_true, if_false]
+  · simp
+  · intro i j hi hj
+    have hin : ∀ a b, a < n → b ≤ a → tri a + b < x.length := by
+      intro a b ha hb
+      have := tri_mono (show a + 1 ≤ n by omega)
+      simp only [tri] at this
+      omega
+    simp only [List.getElem?_map, List.getElem?_range hi, Option.map_some, Option.bind_some,
+      List.getElem?_range hj]
+    by_cases hji : j ≤ i
+    · simp only [hji, if_true]
+      rw [lower_entry n x i j hi hji, Nat.max_eq_left hji, Nat.min_eq_right hji]
+      have := hin i j hi hji
+      rw [List.getElem?_eq_getElem this]; rfl
+    · have hij : i ≤ j := by omega
+      simp only [hji, if_false]
+      rw [lower_entry n x j i hj hij, Nat.max_eq_right hij, Nat.min_eq_left hij]
+      have := hin j i hj hij
+      rw [List.getElem?_eq_getElem this]; rfl
+
+/-- …and it is symmetric. -/
+theorem etc_symmetric {α : Type} (zero : α) (n : Nat) (x : List α) (hx : x.length = tri n) :
+    ∃ M, flattenedToSymmetric zero x = .ok M ∧
+      ∀ i j, i < n → j < n → (M[i]?).bind (·[j]?) = (M[j]?).bind (·[i]?) := by
+  obtain ⟨M, hM, _, h⟩ := etc_symmetric_index zero n x hx
+  refine ⟨M, hM, ?_⟩
+  intro i j hi hj
+  rw [h i j hi hj, h j i hj hi, Nat.max_comm, Nat.min_comm]
+
+/-- A vector whose length is not a triangular number is refused, not silently truncated. -/
+theorem etc_bad_length {α : Type} (zero : α) (x : List α)
+    (hx : tri (triangularRoot x.length) ≠ x.length) :
+    flattenedToSymmetric zero x = .error .shapeError := by
+  unfold flattenedToSymmetric
+  simp [hx]
+
+/-! ## .ext files -/
 
 /-- The special ITERATION codes, getters, fallbacks and post-processing that table.py's ExtTable
     properties use (regenerated from the source on every run) are the documented ones. -/
